@@ -633,11 +633,18 @@ def gen_dirs(rng, stream, spec, k):
                 ld = rng.choice(spec_l) * rng.choice([0.5, 1.0, 1.0, 2.0])
                 d = (F @ ld).tolist()
         else:
-            if r < 0.7:
+            if r < 0.6:
                 d = general_dir(rng)
-            else:
+            elif r < 0.8:
                 ld = rng.choice(spec_l) * 10 ** rng.uniform(-3, 3)
                 d = (F @ ld).tolist()
+            else:
+                # NEARLY special: a branch-boundary direction tilted by 1e-3 … 1e-13 (a threshold such as
+                # `s < eps` instead of `s == 0` only shows for tilts below its square root)
+                ld = unit(rng.choice(spec_l))
+                pert = unit([rng.gauss(0, 1) for _ in range(3)])
+                ld = ld + pert * 10 ** (-rng.randrange(3, 14))
+                d = (F @ (ld * 10 ** rng.uniform(-1, 1))).tolist()
         dirs.append([float(x) for x in d])
     return dirs
 
